@@ -97,7 +97,15 @@ DELETE_ALPHA = [
     ("returning", ["returning", [["name", "id"]]]),
     ("with", ["with", "c1", {"calls": [["from", V], ["select", [f("v", "id")]]]}]),
 ]
+SETOP_ALPHA = [
+    ("order", ["orderby", [f("t", "a")], "asc"]),
+    ("order", ["orderby", [["as", f("t", "a"), "k"]], "desc"]),
+    ("limit", ["limit", 3]),
+    ("offset", ["offset", 1]),
+    ("setop", ["intersect", {"calls": [["from", V], ["select", [f("v", "x")]]]}]),
+]
 KINDS = {
+    "setop": (["from", T], SETOP_ALPHA),
     "select": (["from", T], SELECT_ALPHA),
     "insert": (["into", TI], INSERT_ALPHA),
     "insert_select": (["into", ["t", "t1"]], INSERT_SELECT_ALPHA),
@@ -268,6 +276,36 @@ def check_skeleton(sql, lexd, kind):
     return None
 
 
+def check_setop_tail(sql, lexd):
+    """after the last set operator at depth 0: ORDER BY at most once, before the row-limiting clause, brackets balanced"""
+    try:
+        toks = lex(sql, lexd)
+    except LexError as e:
+        return "unlexable"
+    depth, top = 0, []
+    for t in toks:
+        if t.kind == "OP" and t.text == "(":
+            depth += 1
+        elif t.kind == "OP" and t.text == ")":
+            depth -= 1
+            if depth < 0:
+                return "unbalanced"
+        elif depth == 0 and t.kind == "WORD":
+            top.append(t.value)
+    if depth:
+        return "unbalanced"
+    last = max([i for i, w in enumerate(top) if w in ("UNION", "INTERSECT", "EXCEPT", "MINUS")] or [-1])
+    tail = [w for w in top[last + 1:] if w in ("ORDER", "LIMIT", "OFFSET", "FETCH")]
+    if tail.count("ORDER") > 1:
+        return "clause-repeated:ORDER"
+    if "ORDER" in tail and tail.index("ORDER") != 0:
+        return "clause-order:ORDER-after-row-limit"
+    for w in ("LIMIT", "OFFSET", "FETCH"):
+        if tail.count(w) > 1:
+            return "clause-repeated:%s" % w
+    return None
+
+
 _dbs = {}
 
 
@@ -380,7 +418,10 @@ def run_case(case):
     outs = {}
     n_ext = 0
     for order in extensions(alpha, comb):
-        p = {"calls": [entry] + ([["delete"]] if kind == "delete" else []) + [alpha[i][1] for i in order]}
+        pre = [["delete"]] if kind == "delete" else []
+        if kind == "setop":
+            pre = [["select", [["as", f("t", "a"), "k"]]], ["union_all", {"calls": [["from", U], ["select", [f("u", "x")]]]}]]
+        p = {"calls": [entry] + pre + [alpha[i][1] for i in order]}
         n_ext += 1
         try:
             o = prog.build(p, dialect=d)
@@ -408,7 +449,12 @@ def run_case(case):
         return res  # a rejected construction (C14's business), consistently rejected in every order
     sql = json.loads(key)[0]
     complete = {"select": "select" in fams, "insert": "values" in fams, "insert_select": "select" in fams,
-                "update": "set" in fams, "delete": True}[kind]
+                "update": "set" in fams, "delete": True, "setop": True}[kind]
+    if kind == "setop":
+        sym = check_setop_tail(sql, lexd)
+        if sym:
+            res.violate("C13|setop|%s|%s" % (sym, d), "set operation is not well-formed: %s" % sym, dialect=d, calls=[alpha[i][1] for i in comb], sql=sql)
+        return res
     if not complete:
         if sql != "":
             res.violate("C13|%s|incomplete-renders-fragment" % kind, "an incomplete builder renders %r instead of ''" % sql[:120],
